@@ -12,6 +12,19 @@ COMMON_ASSUME = [
 ]
 
 REGISTRY = {
+    "C01": {
+        "level": "exploration",
+        "technique": "independent CQL v4 value codec (from the spec) as reference model over generated (type, value, carrier) cases; three equations per case; debug overflow traps as extra oracle",
+        "rule": "cases = (column type, value) through the dynamic CqlValue path and (carrier, column type, value) through 132 typed Rust carriers; types = seeded random trees over all 20 natives and list/set/map/tuple/UDT/vector, depth <= 3 (quick) / 5 (thorough); values from boundary pools (integer extremes, NaN payloads, subnormals, empty/multi-byte/70 KB strings, zero-length 'empty' cells for emptiable natives, date/time extremes, durations with 1..9-byte vints, non-minimal varints/decimals, collections of length 0/1/127/128/129/300, vector elements >= 128 and >= 16384 bytes, null at every tuple/UDT position, short tuples/UDTs, top-level null and unset); "
+                "equations: driver bytes == model bytes; driver decode of model bytes == value (padded with nulls); re-encode == model bytes; plus SerializedValues framing; hash carriers compared as multisets; non-trivial = anything but null/unset on a native; distinct = hash of (carrier, type, value)",
+        "assumptions": COMMON_ASSUME + ["a tuple given NO field at all encodes to a zero-length cell, which the dynamic CqlValue decoder reads as the 'empty' value rather than an all-null tuple; the zero-length cell is genuinely ambiguous, so that shape is not generated (--zero_field_tuples=0)"],
+        "quick": [{"variant": "dbg", "args": {"zero_field_tuples": "0"}}],
+        "thorough": [{"variant": "dbg", "args": {"zero_field_tuples": "0"}, "timeout_t": 5400}, {"variant": "rel", "args": {"zero_field_tuples": "0"}, "timeout_t": 5400},
+                     {"variant": "miri", "args": {"zero_field_tuples": "0"}, "workers": 2, "optional": True, "timeout_t": 3000}],
+        "level_text": "Every generated (type, value) is encoded by the driver and by an independent spec codec and must agree byte for byte; the bytes are decoded back by the driver and must equal the value (short tuples/UDTs padded with nulls, floats bitwise, varints numerically), and re-encoding must reproduce the bytes; the same through 132 typed Rust carriers. Sampled inputs with 219 required coverage classes (every native, every container kind at every depth, every null position, every carrier).",
+        "level_note": "trusted: refmodel/cqlenc.rs (self-tested against hand-computed vectors; vector fixed-width table from Cassandra's valueLengthIfFixed)",
+        "design_ref": "DESIGN.md §4 C01",
+    },
     "C03": {
         "level": "exploration",
         "technique": "independent one-shot Murmur3/CDC reference model (validated against pinned Cassandra vectors) over generated keys, chunkings and prepared-statement shapes served by a mock responder",
